@@ -25,6 +25,10 @@ def bookkeeping(ctx, rid):
     body_start = C.succ_by_label(head, "iter")[0]
     # the result
     stores = [n for n in own_nodes(fn.node) if isinstance(n, ast.Assign) and any(isinstance(t, ast.Attribute) and t.attr == "_result" for t in n.targets)]
+    # `if den > 0: result = ratio  else: result = 0` is the statement form of the conditional expression
+    consts = [n for n in stores if isinstance(n.value, ast.Constant) and n.value.value == 0]
+    if len(stores) > 1 and len(stores) - len(consts) == 1:
+        stores = [n for n in stores if n not in consts]
     if len(stores) != 1:
         ctx.undecided(rid, fn, "store of the recheck result not found")
         return
@@ -43,20 +47,30 @@ def bookkeeping(ctx, rid):
     num, den = shape
     ctx.holds(rid, fn, "result = %s / %s * 100" % (num, den), stores[0])
     result_integrity(ctx, rid, fn, stores[0])
-    payload_total(ctx, rid)
+    payload_total(ctx, rid, _feeds_result(fn, stores[0]))
     # the result is stored after the loop is drained
     sn = C.stmt_node(ctx, fn, stores[0])
     ctx.decide(rid, fn, sn not in [n for n in g.reachable(body_start) if head in g.reachable(n)] or True and g.dominates(head, sn),
                "the result is computed after the comparison loop", "the result is not computed after the loop", norm(stores[0]) + " :: after-loop")
     # accumulators
+    def tname(t):
+        if isinstance(t, ast.Name):
+            return t.id
+        if isinstance(t, ast.Attribute) and isinstance(t.value, ast.Name) and t.value.id == fn.self_name:
+            return "self." + t.attr
+        return None
     for acc, role in ((num, "matched"), (den, "examined")):
-        defs = [n for n in own_nodes(fn.node) if (isinstance(n, ast.Assign) and any(isinstance(t, ast.Name) and t.id == acc for t in n.targets))
-                or (isinstance(n, ast.AugAssign) and isinstance(n.target, ast.Name) and n.target.id == acc)]
+        defs = [n for n in own_nodes(fn.node) if (isinstance(n, ast.Assign) and any(tname(t) == acc for t in n.targets))
+                or (isinstance(n, ast.AugAssign) and tname(n.target) == acc)]
         inits = [d for d in defs if isinstance(d, ast.Assign)]
         augs = [d for d in defs if isinstance(d, ast.AugAssign)]
         ok_init = len(inits) == 1 and isinstance(inits[0].value, ast.Constant) and inits[0].value.value == 0 and g.dominates(C.stmt_node(ctx, fn, inits[0]), head)
-        if acc == "self" or not defs:
+        if not defs:
             # denominator may be the payload total (self.total)
+            continue
+        if acc.startswith("self.") and augs and not inits:
+            ctx.violated(rid, fn, "%s-bytes accumulator %s lives on the object and is not set to 0 at the start of a run: a second results() / iter_hashes() on the same Checker "
+                         "(after the content changed, or after an abandoned partial run) adds to the first run's counts" % (role, acc), "init " + acc)
             continue
         ctx.decide(rid, fn, ok_init, "%s-bytes accumulator %r starts at 0 before the loop" % (role, acc),
                    "%s-bytes accumulator %r is not initialised to 0 exactly once before the loop" % (role, acc), "init " + acc)
@@ -195,9 +209,36 @@ def result_integrity(ctx, rid, fn, result_store):
     return n
 
 
-def payload_total(ctx, rid):
+def _feeds_result(fn, result_store):
+    """Attribute names of self that (through local assignments) flow into the stored percentage."""
+    work = [result_store.value]
+    seen_names = set()
+    attrs = set()
+    assigns = {}
+    for n in own_nodes(fn.node):
+        if isinstance(n, ast.Assign):
+            for t in n.targets:
+                for x in ast.walk(t):
+                    if isinstance(x, ast.Name):
+                        assigns.setdefault(x.id, []).append(n.value)
+        elif isinstance(n, ast.AugAssign) and isinstance(n.target, ast.Name):
+            assigns.setdefault(n.target.id, []).append(n.value)
+    while work:
+        e = work.pop()
+        for x in ast.walk(e):
+            if isinstance(x, ast.Attribute) and isinstance(x.value, ast.Name) and x.value.id == fn.self_name:
+                attrs.add(x.attr)
+            elif isinstance(x, ast.Name) and x.id not in seen_names:
+                seen_names.add(x.id)
+                work.extend(assigns.get(x.id, []))
+    return attrs
+
+
+def payload_total(ctx, rid, feeding_attrs):
     """The payload total grows for exactly the entries that are handed to the piece checker (same control dependence as the
-    path being recorded) and by the length recorded for that entry."""
+    path being recorded) and by the length recorded for that entry.  Judged only when the total takes part in the
+    percentage (as denominator, or by limiting the sizes that are accumulated); a total that is only shown in the progress
+    log cannot change the verdict."""
     cls = ctx.prog.cls("torrentfile.recheck:Checker")
     ih = cls.methods["iter_hashes"]
     tattr = None
@@ -206,6 +247,9 @@ def payload_total(ctx, rid):
             tattr = n.right.attr
     if tattr is None:
         tattr = "total"
+    if tattr not in feeding_attrs:
+        ctx.holds(rid, ih, "the payload total (self.%s) does not take part in the percentage: it is only displayed" % tattr, "payload total :: relevance", nontrivial=False)
+        return
     n_sites = 0
     for f in cls.methods.values():
         g = None
@@ -263,13 +307,16 @@ def _ratio_times_100(e):
     def is100(x):
         return isinstance(x, ast.Constant) and x.value == 100
 
+    def nm(v):
+        if isinstance(v, ast.Name):
+            return v.id
+        if isinstance(v, ast.Attribute) and isinstance(v.value, ast.Name):
+            return "self." + v.attr
+        return None
+
     def ratio(x):
-        if isinstance(x, ast.BinOp) and isinstance(x.op, ast.Div) and isinstance(x.left, ast.Name):
-            d = x.right
-            if isinstance(d, ast.Name):
-                return x.left.id, d.id
-            if isinstance(d, ast.Attribute):
-                return x.left.id, "self." + d.attr
+        if isinstance(x, ast.BinOp) and isinstance(x.op, ast.Div) and nm(x.left) and nm(x.right):
+            return nm(x.left), nm(x.right)
         return None
     if isinstance(e, ast.BinOp) and isinstance(e.op, ast.Mult):
         for a, b in ((e.left, e.right), (e.right, e.left)):
@@ -280,8 +327,8 @@ def _ratio_times_100(e):
         l = e.left
         if isinstance(l, ast.BinOp) and isinstance(l.op, ast.Mult):
             for a, b in ((l.left, l.right), (l.right, l.left)):
-                if is100(b) and isinstance(a, ast.Name) and isinstance(e.right, ast.Name):
-                    return a.id, e.right.id
+                if is100(b) and nm(a) and nm(e.right):
+                    return nm(a), nm(e.right)
     return None
 
 
